@@ -14,7 +14,7 @@ from srctools.keyvalues import Keyvalues  # noqa: E402
 from srctools.vmf import Output  # noqa: E402
 
 NONE = ['~none~']
-SYM = {'@': 'instance:', 'E': '\x1b'}
+SYM = {'@': 'instance:', 'E': '\x1b', 'Q': '"', 'B': '\\'}
 
 
 def conc(sym: list, alt: int = 0) -> str:
@@ -36,7 +36,7 @@ def sym(text: str) -> list:
             out.append('@')
             i += 9
         else:
-            out.append('E' if text[i] == '\x1b' else text[i])
+            out.append({'\x1b': 'E', '"': 'Q', '\\': 'B'}.get(text[i], text[i]))
             i += 1
     return out
 
@@ -77,8 +77,11 @@ def main() -> None:
                           float(''.join(o['delay'])), times=int(''.join(o['times'])),
                           inst_out=inst_c(o['instOut']), inst_in=inst_c(o['instIn']), comma_sep=o['comma'])
             text = real.as_keyvalue()
-            kv = list(Keyvalues.parse(text))
-            key, val = kv[0].real_name, kv[0].value
+            try:
+                kv = list(Keyvalues.parse(text))
+                key, val = kv[0].real_name, kv[0].value
+            except Exception as exc:     # the written line does not even tokenise: logged, TLC rejects it
+                key, val = '<unparsable: ' + type(exc).__name__ + '>', ''
             out.write({'k': 'text', 'o': o, 'key': sym(key), 'val': sym(val),
                        'parsed': parse_real(key, val), 'sig': {'kind': 'output', 'action': 'text', 'src': 'edge'}})
     else:
